@@ -3,7 +3,8 @@
    function; `look` is an arbitrary state of the identifier cache.            *)
 From Coq Require Import ZArith NArith List Bool Permutation.
 From XV Require Import core.Value model.Hash model.Cache model.Edits
-  model.Spec proofs.Hash_lemmas proofs.Neutral_lemmas proofs.Cache_lemmas proofs.Spec_lemmas.
+  model.Spec model.Seal proofs.Hash_lemmas proofs.Neutral_lemmas proofs.Cache_lemmas proofs.Spec_lemmas
+  proofs.Walk_reach_lemmas.
 Import ListNotations.
 
 (* keyword order: the stored values of any node in another order (distinct
@@ -69,3 +70,24 @@ Print Assumptions C01_cache_sound_acyclic.
 Theorem C01_initial_state_sound : forall H cs h flags, csound H cs h (map centry0 flags).
 Proof. exact csound_init. Qed.
 Print Assumptions C01_initial_state_sound.
+
+(* the FULL identifier (the job directory name): the pre-task collection visits exactly the
+   configurations reachable from the node, so the full identifier depends on successors as
+   sets - in particular it does not depend on keyword order                               *)
+Theorem C01_pretask_collection_is_reachability : forall h n, wf_heap h -> n < length h ->
+  forall m, In m (walk h (walk_fuel h) [n] []) <-> reach h n m.
+Proof. exact walk_reach. Qed.
+Print Assumptions C01_pretask_collection_is_reachability.
+
+Theorem C01_full_identifier_same_successors : forall H cs cs' h h' fuel n d,
+  wf_heap h -> same_succs h h' -> n < length h ->
+  (forall m, raw_pure H cs h fuel m = raw_pure H cs' h' fuel m) ->
+  full_pure H cs h fuel n = Ok d -> full_pure H cs' h' fuel n = Ok d.
+Proof. exact full_pure_same_succs. Qed.
+Print Assumptions C01_full_identifier_same_successors.
+
+Theorem C01_keyword_order_full_identifier : forall H cs h n x f' fuel m d,
+  wf_heap h -> nth_error h n = Some x -> Permutation (n_fields x) f' -> NoDup (map fst (n_fields x)) -> m < length h ->
+  full_pure H cs h fuel m = Ok d -> full_pure H cs (upd_nth h n (with_fields x f')) fuel m = Ok d.
+Proof. exact kwarg_order_full. Qed.
+Print Assumptions C01_keyword_order_full_identifier.
